@@ -179,12 +179,23 @@ def check(run):
         j.case('i%d' % k).model('xml', XML % (esc(t), 'true')).dump('errors').end()
         j.case('b%d' % k).model('xml', XML_B % (esc(t), 'true')).dump('errors').end()
         j.case('u%d' % k).model('xml', XML_B % ('true', esc(t))).dump('errors').end()
+    # the same formulas read in the 3.x syntax (no quantifiers, no xor there), their top-level conjunction written as the comma-separated list of that syntax
+    def has(f, heads):
+        return f[0] in heads or any(has(x, heads) for x in f[1:] if isinstance(x, tuple))
+    def conjs(f):
+        return conjs(f[1]) + conjs(f[2]) if f[0] == 'and' else [f]
+    oldtexts = {}
+    for k, f in enumerate(forms):
+        if not has(f, ('xor', 'forall', 'exists')) and (k % 3 == 0 or k >= nplain):
+            oldtexts[k] = ', '.join(render_min(c, rng)[0] for c in conjs(f))
+            j.case('o%d' % k, old=True).model('xml', XML % ('true', esc(oldtexts[k]))).dump('errors').end()
+            j.case('p%d' % k, old=True).model('xml', XML % (esc(oldtexts[k]), 'true')).dump('errors').end()
     rr = vlib.run_jobs(j)
     fmism, nacc, nrej, nknown = [], 0, 0, 0
     samples = []
     for k, (f, t, m) in enumerate(zip(forms, texts, model)):
         res = {}
-        for pos in 'gibu':
+        for pos in 'gibu' + ('op' if k in oldtexts else ''):
             c = rr['%s%d' % (pos, k)]
             if c['status'] != 'ok' or len(c['cmds']) < 2:
                 run.fail('parser/type checker crashed on %s %r' % ('invariant' if pos == 'i' else 'guard', t), dict(text=t, status=c['status']), shape='crash')
@@ -192,9 +203,12 @@ def check(run):
                 continue
             errs = [l.split('msg="')[1].split('"')[0] for l in c['cmds'][1][2] if l.startswith('error')]
             res[pos] = (len(errs) == 0, errs)
-        for pos, flag, what in (('g', m['guard'], 'guard'), ('i', m['inv'], 'invariant'), ('b', m['guard'], 'guard of an edge leaving a branchpoint'), ('u', m['guard'], 'guard of an uncontrollable edge')):
-            if res[pos] is None:
+        for pos, flag, what in (('g', m['guard'], 'guard'), ('i', m['inv'], 'invariant'), ('b', m['guard'], 'guard of an edge leaving a branchpoint'), ('u', m['guard'], 'guard of an uncontrollable edge'),
+                                ('o', m['guard'], 'guard in the 3.x syntax'), ('p', m['inv'], 'invariant in the 3.x syntax')):
+            if res.get(pos) is None:
                 continue
+            if pos in 'op':
+                t = oldtexts[k]
             ok, errs = res[pos]
             if ok != flag:
                 fmism.append(dict(formula=sx(f), text=t, position=what, model_type=m['ty'], model_accepts=flag, implementation_accepts=ok, errors=errs[:2]))
